@@ -101,7 +101,57 @@ def scenarios(tier):
         out.append((spec, [{"op": "ins", "b": "C", "k": 0, "p": pc}]))
         out.append((spec, [{"op": "ins", "b": "C", "k": 1, "p": pc}, {"op": "del", "b": "C", "k": 0, "n": 1}]))
         out.append((spec, [{"op": "del", "b": "A", "k": 1, "n": 1}, {"op": "del", "b": "C", "k": 0, "n": 1}]))
+    # ARM64: flag save/restore and register choice of the generated prologue
+    from . import c07
+
+    aspec = c07.make_spec(None, ["jcc", "A"], ("f", "f", "g"), True, "arm64-elf")
+    for cons in (
+        {"clobbers_flags": True, "clobbers_registers": ["x9", "x10", "x11", "x12"]},
+        {"clobbers_flags": True, "clobbers_registers": ["x0", "x19"], "reads_registers": ["x0"]},
+        {"clobbers_flags": True, "scratch_registers": 2},
+        {"preserve_caller_saved_registers": True, "clobbers_flags": True},
+        {"scratch_registers": 3, "clobbers_registers": ["x1", "x2"], "align_stack": True},
+    ):
+        out.append((aspec, [{"op": "ins", "b": "A", "k": 1, "p": [["p", 0]], "cons": cons}]))
+        out.append((aspec, [{"op": "ins", "b": "B", "k": 0, "p": [["p", 0]], "cons": cons}, {"op": "ins", "b": "C", "k": 0, "p": [["p", 0]], "cons": cons}]))
+    # a function whose returning blocks do not all return to the same places (legal IR: hand-edited or partially
+    # analysed CFG) and patches that add returns / calls to it
+    out.extend(uneven_return_scenarios())
     return [(s, scen.retag(m)) for s, m in out]
+
+
+def uneven_return_scenarios():
+    K = {"n": "K", "k": "c", "i": [["o", 8], ["call", "X"]], "f": "k", "e": True}
+    K2 = {"n": "K2", "k": "c", "i": [["o", 9], ["call", "X"]], "f": "k", "e": False}
+    K3 = {"n": "K3", "k": "c", "i": [["o", 10], ["ret"]], "f": "k", "e": False}
+    X = {"n": "X", "k": "c", "i": [["o", 1], ["o", 2], ["jcc", "Z"]], "f": "f", "e": True}
+    Y = {"n": "Y", "k": "c", "i": [["o", 3], ["ret"]], "f": "f", "e": False}
+    Z = {"n": "Z", "k": "c", "i": [["o", 5], ["ret"]], "f": "f", "e": False}
+    spec = scen.spec_of([K, K2, K3, X, Y, Z])
+    spec["tweak"] = "drop-return-edge:Z:K3"
+    out = []
+    for blk, k in (("X", 1), ("X", 0), ("Y", 1), ("Z", 0)):
+        out.append((spec, [{"op": "ins", "b": blk, "k": k, "p": [["p", 0], ["ret"]]}]))
+        out.append((spec, [{"op": "ins", "b": blk, "k": k, "p": [["p", 0], ["call", "X"], ["p", 0]]}]))
+    out.append((spec, [{"op": "ins", "b": "X", "k": 1, "p": [["p", 0], ["ret"]]}, {"op": "del", "b": "Y", "k": 0, "n": 2}]))
+    out.append((spec, [{"op": "ins", "b": "K3", "k": 0, "p": [["call", "X"], ["p", 0]]}, {"op": "ins", "b": "X", "k": 2, "p": [["ret"]]}]))
+    return out
+
+
+def _prepare(spec):
+    tw = spec.get("tweak")
+    if not tw:
+        return None
+
+    def prep(w):
+        _, src, dst = tw.split(":")
+        for e in list(w.ir.cfg.out_edges(w.blocks[src])):
+            if e.label.type == gtirb.Edge.Type.Return and e.target is w.blocks[dst]:
+                w.ir.cfg.discard(e)
+                return
+        raise AssertionError("harness: no return edge %s" % tw)
+
+    return prep
 
 
 def _tag(spec, diffs, mods=None):
@@ -133,7 +183,7 @@ def _strip(a):
 
 
 def run_dump(spec, mods):
-    w, exc = Lg.rewrite(spec, mods)
+    w, exc = Lg.rewrite(spec, mods, prepare=_prepare(spec))
     if exc is not None:
         return "EXC:" + type(exc).__name__ + ":" + str(exc)[:60]
     return canon.dump(w.ir)
@@ -241,6 +291,8 @@ def run_scheduled(spec, mods, plan):
     SCHED.count = 0
     SCHED.points = []
     w = Lg.build(spec)
+    if _prepare(spec):
+        _prepare(spec)(w)
     from gtirb_rewriting import RewritingContext
 
     ctx = RewritingContext(w.m, w.funcs)
